@@ -1,3 +1,4 @@
 import Generated.FileConsts
 import Generated.LpLabels
 import Generated.Vartype
+import Generated.AbcSubst
